@@ -89,22 +89,21 @@ Lemma znodup_of_counts l : (forall x, zcount x l <= 1) -> znodup l = true.
 Proof.
   induction l as [|a l IH]; intros H; [reflexivity|]. simpl. apply andb_true_iff. split.
   - apply negb_true_iff, zcount_zero_existsb. specialize (H a). rewrite zcount_cons, Z.eqb_refl in H.
-    pose proof (zcount_nonneg a l). simpl in H. lia.
+    pose proof (zcount_nonneg a l). cbn [b2z] in H. lia.
   - apply IH. intros x. specialize (H x). rewrite zcount_cons in H. pose proof (b2z_range (a =? x)). lia.
 Qed.
 Lemma counts_of_znodup l : znodup l = true -> forall x, zcount x l <= 1.
 Proof.
   induction l as [|a l IH]; intros H x; [unfold zcount; simpl; lia|]. simpl in H.
   apply andb_true_iff in H as (H1 & H2). apply negb_true_iff in H1. rewrite zcount_cons.
-  specialize (IH H2 x). destruct (Z.eqb_spec a x); simpl; [|lia]. subst. rewrite existsb_false_zcount by assumption. lia.
+  specialize (IH H2 x). destruct (Z.eqb_spec a x); cbn [b2z]; [|lia]. subst. rewrite existsb_false_zcount by assumption. lia.
 Qed.
 
 Lemma zcount_incident es col v x : zcount x (incident_colors es col v) = cnt es col v x.
 Proof.
   unfold incident_colors, cnt. induction (combine es col) as [|[e c] l IH]; [reflexivity|].
-  simpl. rewrite !zcount_app, IH. unfold ends_at. cbn [fst snd].
-  destruct (fst e =? v), (snd e =? v), (Z.eqb_spec c x); subst; unfold zcount; simpl;
-    rewrite ?Z.eqb_refl; try (destruct (Z.eqb_spec c x); [contradiction|]); simpl; lia.
+  cbn [flat_map map fst snd]. rewrite !zcount_app, IH. unfold ends_at. cbn [fst snd].
+  destruct (fst e =? v), (snd e =? v); unfold zcount, zsum; cbn [map fold_right b2z]; lia.
 Qed.
 
 Lemma zdegree_deg es v : zdegree es v = deg es v.
@@ -133,9 +132,15 @@ Proof.
 Qed.
 
 (* ------------------------------------------------------------------ block structure *)
+Lemma combine_app' {A B} (l1 : list A) (l1' : list B) l2 l2' :
+  length l1 = length l1' -> combine (l1 ++ l2) (l1' ++ l2') = combine l1 l1' ++ combine l2 l2'.
+Proof.
+  revert l1'. induction l1 as [|a l1 IH]; intros [|b l1'] H; simpl in *; try discriminate; [reflexivity|].
+  f_equal. apply IH. lia.
+Qed.
 Lemma cnt_app es1 col1 es2 col2 v x : length es1 = length col1 ->
   cnt (es1 ++ es2) (col1 ++ col2) v x = cnt es1 col1 v x + cnt es2 col2 v x.
-Proof. intros Hl. unfold cnt. rewrite combine_app by assumption. now rewrite map_app, zsum_app. Qed.
+Proof. intros Hl. unfold cnt. rewrite combine_app' by assumption. now rewrite map_app, zsum_app. Qed.
 Lemma deg_app es1 es2 v : deg (es1 ++ es2) v = deg es1 v + deg es2 v.
 Proof. unfold deg. now rewrite map_app, zsum_app. Qed.
 
@@ -181,8 +186,7 @@ Proof.
   intros (Hh & Hi & Hb) Ha Hr Hm.
   rewrite zsum_zrange_delta with (p := hinv m).
   - assert (h (hinv m) = m) by (apply Hb; auto). rewrite H.
-    destruct (Z.eqb_spec a r); [subst; now rewrite Z.eqb_refl|].
-    destruct (Z.eqb_spec (a + K * m) (K * m + r)); [lia|reflexivity].
+    destruct (Z.eqb_spec a r), (Z.eqb_spec (a + K * m) (K * m + r)); try reflexivity; lia.
   - auto.
   - intros c Hc Hne. destruct (Z.eqb_spec (a + K * h c) (K * m + r)) as [E|]; [|reflexivity].
     apply affine_eq_iff in E as (_ & E); [|lia|lia]. apply Hb in E; auto. contradiction.
@@ -206,7 +210,7 @@ Proof.
   set (ns := n_sites c) in *.
   unfold tile_edges, tile_coloring.
   rewrite cnt_flat_map.
-  2:{ intros a _. rewrite map_length, combine_length. unfold zlen, n_uedges in *. lia. }
+  2:{ intros a _. rewrite map_length, combine_length. unfold n_uedges, zlen in *. lia. }
   (* per cell: a sum over the unit edges *)
   set (U := combine (combine (uc_edges c) (uc_crossing c)) col).
   assert (Hcell : forall n, cnt (map (tile_edge nx ny ns n) (combine (uc_edges c) (uc_crossing c))) col (ns * m + s) x
@@ -222,7 +226,7 @@ Proof.
   { unfold cnt, U. assert (Hlen : length (uc_edges c) = length (uc_crossing c)) by (unfold zlen in Hl; lia).
     revert Hlen. generalize (uc_edges c) (uc_crossing c) col.
     induction l as [|a l IH]; intros [|b l'] [|y ys] Hlen; simpl in *; try reflexivity; try discriminate.
-    rewrite IH by lia. reflexivity. }
+    rewrite (IH l' ys) by lia. reflexivity. }
   rewrite Hunit. apply zsum_ext. intros [[e cr] y] Hin. cbn [fst snd].
   (* e is an edge of the cell: its ends are sites *)
   assert (He : 0 <= fst e < ns /\ 0 <= snd e < ns /\ -1 <= fst cr <= 1).
@@ -255,10 +259,10 @@ Proof.
   apply proper_coloring_elim in Hp as (Hlen & Hrange & Hcnt).
   destruct (wf_cell_spec c Hwf) as (HS & Hl & _).
   assert (HN : 0 <= nx * ny) by nia.
-  assert (Hcol : zlen col = n_uedges c) by (unfold zlen, n_uedges; lia).
+  assert (Hcol : zlen col = n_uedges c) by (unfold n_uedges, zlen; lia).
   apply proper_coloring_intro.
-  - pose proof (tile_edges_length c nx ny HN Hl). pose proof (tile_coloring_length col nx ny HN).
-    unfold zlen in *. lia.
+  - pose proof (tile_edges_length c nx ny HN Hl) as E1. pose proof (tile_coloring_length col nx ny HN) as E2.
+    rewrite Hcol in E2. rewrite <- E1 in E2. unfold zlen in E2. lia.
   - intros y Hy'. unfold tile_coloring in Hy'. apply in_flat_map in Hy' as (_ & _ & Hy'). auto.
   - intros v x Hv.
     assert (Hns : 0 < n_sites c) by nia.
